@@ -92,7 +92,7 @@ class Alphabet:
 # abstract values
 
 class AV:
-    pass
+    tick = None        # consuming step at which the value was produced (None: not produced by consumption)
 
 
 class TokV(AV):
@@ -179,6 +179,7 @@ def av_key(v, st):
 class State:
     def __init__(self, env=None, la=(None, None), toks=None, consumed=0, first=None, last=None, ticks=0):
         self.ticks = ticks                # number of consuming steps so far (tokens and callee calls); not part of the state key
+        self.tok_ticks = {}               # token id -> step at which it was consumed
         self.env = dict(env or {})
         self.la = tuple(la)
         self.toks = dict(toks or {})       # token id -> frozenset of atoms
@@ -187,7 +188,9 @@ class State:
         self.last = last                  # description of what was consumed last: ('t', tid) | ('n', name)
 
     def copy(self):
-        return State(self.env, self.la, self.toks, self.consumed, self.first, self.last, self.ticks)
+        c = State(self.env, self.la, self.toks, self.consumed, self.first, self.last, self.ticks)
+        c.tok_ticks = self.tok_ticks
+        return c
 
     def slot_of(self, tid):
         for i, t in enumerate(self.la):
@@ -296,6 +299,21 @@ class Extractor:
         self.run((Frame(tree.body, 0, None, name),), st, 0)
         return self.aut
 
+    def extract_function(self, func):
+        """a module-level driver (parse_value / parse_type): `parser = Parser(...)` followed by calls on `parser`"""
+        tree = ast.parse(textwrap.dedent(inspect.getsource(func))).body[0]
+        ast.increment_lineno(tree, func.__code__.co_firstlineno - tree.lineno)
+        self.aut = Automaton(func.__name__, ())
+        self.memo = {}
+        self.tested = set()
+        self.depth = 0
+        self.entry = True
+        st = State()
+        for a in tree.args.args:
+            st.env[a.arg] = UnknownV(a.arg)
+        self.run((Frame(tree.body, 0, None, func.__name__),), st, 0)
+        return self.aut
+
     # -- token stream primitives ---------------------------------------------------------------------------------------
     def fresh(self, st):
         self.tid += 1
@@ -323,6 +341,8 @@ class Extractor:
         st.la = (st.la[1], None)
         st.consumed = 1
         st.ticks += 1
+        st.tok_ticks = dict(st.tok_ticks)
+        st.tok_ticks[tid] = st.ticks
         st.last = ("t", tid)
         return node, tid
 
@@ -353,6 +373,11 @@ class Extractor:
             rec["branches"][o] = {"post": post, "node": n2}
             out.append((s2, n2, o))
         return out
+
+    @staticmethod
+    def ticked(v, st):
+        v.tick = st.ticks
+        return v
 
     def split_edge(self, st, node, match, feasible, tid=None):
         idx = [i for i, (src, dst, lab) in enumerate(self.aut.edges) if dst == node and match(lab)]
@@ -620,7 +645,7 @@ class Extractor:
                 raise Unsupported("non-empty list display")
             return [(st, node, ListV("empty"))]
         if isinstance(e, ast.Attribute):
-            if isinstance(e.value, ast.Name) and e.value.id == "self":
+            if isinstance(e.value, ast.Name) and e.value.id in ("self", "parser"):
                 if e.attr == "_allow_type_system":
                     return [(st, node, ConstV(self.flags["allow_type_system"]))]
                 if e.attr == "_experimental_fragment_variables":
@@ -640,7 +665,9 @@ class Extractor:
                     if e.attr == "__class__":
                         out.append((s2, n2, ClassOfV(v.tid)))
                     elif e.attr == "value":
-                        out.append((s2, n2, ValueOfV(v.tid)))
+                        w = ValueOfV(v.tid)
+                        w.tick = v.tick
+                        out.append((s2, n2, w))
                     elif e.attr in ("start", "end"):
                         out.append((s2, n2, UnknownV("%s.%s" % (ast.unparse(e.value), e.attr))))
                     else:
@@ -745,6 +772,9 @@ class Extractor:
                        "loc_text": loc.text if isinstance(loc, LocV) else (ast.unparse([k.value for k in e.keywords if k.arg == "loc"][0]) if "loc" in kw else None),
                        "loc_tid": loc.tid if isinstance(loc, LocV) else None, "loc_ticks": loc.ticks if isinstance(loc, LocV) else None,
                        "first": s2.first, "ticks": s2.ticks, "consumed": s2.consumed,
+                       "kw_ticks": {k: (v.tick if v.tick is not None else s2.tok_ticks.get(getattr(v, "tid", None))) for k, (v, _c, _n) in kw.items()},
+                       "kw_none": {k: isinstance(v, ConstV) and (v.value is None or v.value == []) or (isinstance(v, ListV) and v.state == "empty" and v.tick is None)
+                                   for k, (v, _c, _n) in kw.items()},
                        "first_atoms": s2.toks.get(s2.first) if s2.first else None}
                 self.aut.calls.append(rec)
                 out.append((s2, n2, NodeV(f.attr, rec)))
@@ -753,7 +783,9 @@ class Extractor:
             return [(s2, n2, LocV(a[0].tid if a and isinstance(a[0], TokV) else None, s2.ticks, ast.unparse(e)))
                     for s2, n2, a, _k in self.ev_args(e, st, node)]
         # methods of the parser
-        if isinstance(f, ast.Attribute) and isinstance(f.value, ast.Name) and f.value.id == "self":
+        if isinstance(f, ast.Name) and f.id == "Parser":
+            return [(st, node, UnknownV("parser"))]          # Parser(source, **kwargs): construction only
+        if isinstance(f, ast.Attribute) and isinstance(f.value, ast.Name) and f.value.id in ("self", "parser"):
             out = []
             for s2, n2, args, kw in self.ev_args(e, st, node):
                 if kw and f.attr != "peek":
@@ -795,7 +827,7 @@ class Extractor:
         if name == "advance":
             st = st.copy()
             node, tid = self.consume(st, node)
-            return [(st, node, TokV(tid))]
+            return [(st, node, self.ticked(TokV(tid), st))]
         if name in ("expect", "skip"):
             if not (isinstance(args[0], ConstV) and isinstance(args[0].value, type)):
                 raise Unsupported("%s(non-class)" % name)
@@ -807,7 +839,7 @@ class Extractor:
             for s2, n2, o in self.decide(st, node, line, "%s(%s)" % (name, args[0].value.__name__), tid, atoms & want, atoms - want, 1):
                 if o:
                     n3, t3 = self.consume(s2, n2)
-                    out.append((s2, n3, TokV(t3) if name == "expect" else ConstV(True)))
+                    out.append((s2, n3, self.ticked(TokV(t3), s2) if name == "expect" else ConstV(True)))
                 elif name == "skip":
                     out.append((s2, n2, ConstV(False)))
                 else:
@@ -827,7 +859,7 @@ class Extractor:
             for s2, n2, o in self.decide(st, node, line, "expect_keyword(%r)" % args[0].value, tid, atoms & {kw}, atoms - {kw}, 1):
                 if o:
                     n3, t3 = self.consume(s2, n2)
-                    out.append((s2, n3, TokV(t3)))
+                    out.append((s2, n3, self.ticked(TokV(t3), s2)))
                 else:
                     self.aut.raises.append({"node": n2, "ctor": "UnexpectedToken", "pos": "next_token.start", "token_atoms": s2.toks[tid], "token_is_lookahead": 1,
                                             "consumed": s2.consumed, "line": line, "la1": s2.toks[tid], "by": "expect_keyword(%r)" % args[0].value})
@@ -869,17 +901,17 @@ class Extractor:
                     if flag == "nonempty":
                         s2.consumed = 1
                     n2 = self.aut.edge(node, ("n", name, tuple(vals), flag))
-                    out.append((s2, n2, ListV(flag)))
+                    out.append((s2, n2, self.ticked(ListV(flag), s2)))
                 return out
             n2 = self.aut.edge(node, ("n", name, tuple(vals), None))
             st.consumed = 1 if not self.may_be_empty(name) else st.consumed
             if ret == "list":
-                return [(st, n2, ListV("unknown"))]
+                return [(st, n2, self.ticked(ListV("unknown"), st))]
             if ret == "optional":
-                return [(st, n2, UnknownV("optional"))]
+                return [(st, n2, self.ticked(UnknownV("optional"), st))]
             if ret == "str":
-                return [(st, n2, UnknownV("str"))]
-            return [(st, n2, NodeV("<%s>" % name, edge=len(self.aut.edges) - 1))]
+                return [(st, n2, self.ticked(UnknownV("str"), st))]
+            return [(st, n2, self.ticked(NodeV("<%s>" % name, edge=len(self.aut.edges) - 1), st))]
         raise Unsupported("self.%s(...)" % name)
 
     def return_kind(self, name):
